@@ -177,6 +177,8 @@ Definition sub_at (sm : summ) (s : Z) := nth_error (m_subs sm) (n s).
 Definition pub_at (sm : summ) (p : Z) := nth_error (m_pubs sm) (n p).
 Definition zin (x : Z) (l : list Z) : bool := existsb (Z.eqb x) l.
 
+Definition zrange (k : nat) : list Z := map Z.of_nat (seq 0 k).
+
 Definition bad (sm : summ) : summ :=
   mkSumm (m_subs sm) (m_pubs sm) (m_recv sm) (m_tout sm) (m_closed sm) (m_eof sm) (m_time sm) (m_lastgor sm) true.
 
@@ -211,8 +213,13 @@ Definition summ_step (sm : summ) (x : xl) : summ :=
       mkSumm (m_subs sm ++ [(c, f, t, oF, oT)]) (m_pubs sm) (m_recv sm) (m_tout sm) (m_closed sm) (m_eof sm)
              (m_time sm) (m_lastgor sm) (m_bad sm)
   | XPub m vis =>
+      (* published while subscribed: the call visits every subscriber that exists and has not been closed
+         (scripts are sequential, so "during the whole call" = "now"), no closed one, none twice *)
+      let ok := forallb (fun s => zin s (m_closed sm) || zin s vis) (zrange (length (m_subs sm)))
+                && forallb (fun s => negb (zin s (m_closed sm)) && (n s <? length (m_subs sm))) vis
+                && znodup vis in
       mkSumm (m_subs sm) (m_pubs sm ++ [(m, vis, m_time sm)]) (m_recv sm) (m_tout sm) (m_closed sm) (m_eof sm)
-             (m_time sm) (m_lastgor sm) (m_bad sm)
+             (m_time sm) (m_lastgor sm) (m_bad sm || negb ok)
   | XRecvVal s p m =>
       let ok := match sub_at sm s, pub_at sm p with
                 | Some (_, f, _, _, _), Some (m', vis, _) =>
@@ -253,7 +260,6 @@ Definition summ_step (sm : summ) (x : xl) : summ :=
 Definition summarize (tr : list xl) : summ :=
   fold_left summ_step tr (mkSumm [] [] [] [] [] [] 0%Z 0%Z false).
 
-Definition zrange (k : nat) : list Z := map Z.of_nat (seq 0 k).
 
 (* every accepted visited pair of a subscriber that was never closed, and that has not timed out, has
    been received (the script ends with a drain) *)
@@ -313,15 +319,17 @@ Definition mon15 (tr : list xl) (o : obs) : bool :=
 
 (* buffer kept: what a subscriber receives between its close and the moment it sees "closed" is exactly
    as many values as its channel held at the last quiescent point before the close *)
-Record bk := mkBk { b_lens : list Z; b_recv : list Z; b_close : list (Z * Z * Z); b_bad : bool }.
+Record bk := mkBk { b_lens : list Z (* subscriber ids, one per message that entered a buffer *);
+                    b_recv : list Z; b_close : list (Z * Z * Z); b_bad : bool }.
 Definition zcount (s : Z) (l : list Z) : Z := Z.of_nat (length (filter (Z.eqb s) l)).
 Definition bk_step (b : bk) (x : xl) : bk :=
   match x with
-  | XQuiet lens _ _ => mkBk lens (b_recv b) (b_close b) (b_bad b)
+  | XDeliver _ s => mkBk (s :: b_lens b) (b_recv b) (b_close b) (b_bad b)
   | XRecvVal s _ _ => mkBk (b_lens b) (s :: b_recv b) (b_close b) (b_bad b)
   | XCloseSub s =>
       if existsb (fun c => (fst (fst c) =? s)%Z) (b_close b) then b
-      else mkBk (b_lens b) (b_recv b) ((s, nth (n s) (b_lens b) 0%Z, zcount s (b_recv b)) :: b_close b) (b_bad b)
+      else mkBk (b_lens b) (b_recv b)
+                ((s, Z.max 0 (zcount s (b_lens b) - zcount s (b_recv b)), zcount s (b_recv b)) :: b_close b) (b_bad b)
   | XRecvClosed s =>
       match find (fun c => (fst (fst c) =? s)%Z) (b_close b) with
       | Some (_, buffered, r) =>
